@@ -913,7 +913,7 @@ func run(c Case) *kit.Result {
 func lightTargets() []Case {
 	var out []Case
 	para := ops.Op{K: "para", S: []string{"hello target"}}
-	for i, k := range []string{"existing-short", "existing-docx", "symlink", "symlink-dangling", "relative", "bare", "dotdot", "longname", "name-too-long", "empty", "unicode", "procfs", "is-dir"} {
+	for i, k := range []string{"existing-short", "existing-docx", "symlink", "symlink-dangling", "relative", "bare", "dotdot", "longname", "name-too-long", "empty", "unicode", "procfs", "is-dir", "ws-trailing", "ws-leading", "ws-newline", "ws-component", "noext", "otherext"} {
 		c := Case{Ops: []ops.Op{para}, Target: k, Light: true, NoBefore: i%2 == 1, FaultOver: i%3 == 0}
 		if i%4 == 1 {
 			c.Stages = []Stage{{Path: "main", NoBefore: true, Ops: []ops.Op{{K: "c05big", I: []int{5, i, 1}}}}}
@@ -990,7 +990,32 @@ func fixedCases() []Case {
 		// ten saves of one object, a picture added before each
 		{Ops: []ops.Op{para}, Target: "plain", Light: true, Stages: tenSaves()},
 	}
+	// parts of another producer the library keeps as they are, with every content form of extraDatas under .xml, .rels
+	// and other names: opened from memory and saved; opened from a path, edited and saved twice
+	cases = append(cases,
+		Case{Ops: []ops.Op{para}, Target: "plain", Light: true, Extra: edgeContentExtras()},
+		Case{Base: "own", Pre: []ops.Op{para, hdr, img(7)}, OpenVia: "path", Ops: []ops.Op{ftr}, Target: "inplace", Light: true, NoBefore: true, FaultOver: true,
+			Extra: edgeContentExtras(), Stages: []Stage{{Path: "new", NoBefore: true, Ops: []ops.Op{fn}}}})
 	return append(cases, lightTargets()...)
+}
+
+// edgeContentExtras: one foreign part per content form of extraDatas for each of several part names / extensions.
+func edgeContentExtras() []Extra {
+	var out []Extra
+	for i, d := range extraDatas {
+		if d == "" && i > 0 {
+			continue
+		}
+		out = append(out,
+			Extra{Name: fmt.Sprintf("customXml/item%d.xml", i+1), Data: d},
+			Extra{Name: fmt.Sprintf("customXml/_rels/item%d.xml.rels", i+1), Data: d},
+			Extra{Name: fmt.Sprintf("word/embeddings/object%d.bin", i+1), Data: d})
+	}
+	names := []string{"docProps/custom.xml", "word/theme/theme1.xml", "word/fontTable.xml", "word/webSettings.xml", "word/glossary/document.xml", "extra.dat"}
+	for i, n := range names {
+		out = append(out, Extra{Name: n, Data: extraDatas[6+i%(len(extraDatas)-6)]})
+	}
+	return out
 }
 
 func manyExtras(n int) []Extra {
@@ -1013,7 +1038,7 @@ func tenSaves() []Stage {
 func TestC05(t *testing.T) {
 	kit.Main(t, kit.Spec[Case]{
 		ID: "C05", Level: "fault_enumeration",
-		Rule: "per generated document one unrestricted Save (L = file size) and one Save per fault point with the soft RLIMIT_FSIZE set to N: every N in [0,L) when L<=16384 (an expensive document - more than about 6e8/L bytes serialised per Save - keeps every N of the first 32 and last 1024 bytes and gets the rest evenly thinned; quick: every N of the first 32 and last 128 bytes, every second one of the 896 before with a phase that changes from case to case, about 100 evenly spaced ones between), else 0,1,L-2,L-1, eight offsets in the last 1000 bytes, every multiple of a 4096*2^k stride +-1 and 8-40 drawn offsets; one case in three takes a sparse sample of about 25 offsets instead (it is about its history / target); controls N in {L, L+1, L+4096}. Document: 0-12 API ops (incl. reopen / template rendering / Markdown conversion, which replace the object - the replaced objects stay alive and are saved after the final save) on a new document, or on a document opened (OpenFromMemory, or Open from a path) from the library's minimal package, from the package the library wrote for a generated document, or from a generated package of another producer (other prefixes, stored entries, absolute targets, several sections, odd media names), each optionally extended with 1-5 (rarely 33-70) foreign zip entries: directory entries, zero-length parts, unknown parts, names that differ only in case or are prefixes of one another, names the library generates itself (image9/image10, header1), non-ASCII names, data of 4095-70000 bytes; optionally a large incompressible image (three size bands); optionally edits that cross counts (10-12, rarely 17/33/65 pictures or notes, up to 129 paragraphs) and a 63-130 KiB text with multi-byte characters. Targets: plain, nested new directories, existing longer file / shorter file / complete larger package, symbolic link to a file, dangling symbolic link, relative path in new directories, bare file name, path with .. and ., 255-byte name, non-ASCII name, the path the document was opened from; unusable targets (/dev/full, parent is a regular file, path is a directory, 256-byte name, empty path, directory below /proc) must give an error and the object is saved to an ordinary path afterwards. Save history: in about 3 of 4 cases the object was saved 1-4 (rarely 10-12) times before the final save (to the final path, the previous path, a fresh path, fresh directories, a relative path; one stage in four first hits a write fault at a drawn offset and is then repeated on the same path; one in ten goes to an unusable target and must fail), each save followed by 0-4 edits drawn mostly from the calls that create package parts plus body growth and shrinkage; in one case of four a second, independent Document object is saved and edited in some of the stages (alternately with the judged one, also to the same path) and once more between two final saves of the judged object; every save of every object is judged like the final one. A case is non-trivial when it has >2 fault points with 0<=N<L; distinct = (size band, target kind, source, op count, L/512, saves, objects).",
+		Rule: "per generated document one unrestricted Save (L = file size) and one Save per fault point with the soft RLIMIT_FSIZE set to N: every N in [0,L) when L<=16384 (an expensive document - more than about 6e8/L bytes serialised per Save - keeps every N of the first 32 and last 1024 bytes and gets the rest evenly thinned; quick: every N of the first 32 and last 128 bytes, every second one of the 896 before with a phase that changes from case to case, about 100 evenly spaced ones between), else 0,1,L-2,L-1, eight offsets in the last 1000 bytes, every multiple of a 4096*2^k stride +-1 and 8-40 drawn offsets; one case in three takes a sparse sample of about 25 offsets instead (it is about its history / target); controls N in {L, L+1, L+4096}. Document: 0-12 API ops (incl. reopen / template rendering / Markdown conversion, which replace the object - the replaced objects stay alive and are saved after the final save) on a new document, or on a document opened (OpenFromMemory, or Open from a path) from the library's minimal package, from the package the library wrote for a generated document, or from a generated package of another producer (other prefixes, stored entries, absolute targets, several sections, odd media names), each optionally extended with 1-5 (rarely 33-70) foreign zip entries: directory entries, zero-length parts, unknown parts, names that differ only in case or are prefixes of one another, names the library generates itself (image9/image10, header1), non-ASCII names, data of 4095-70000 bytes, contents with a UTF-8 byte order mark / UTF-16 / white space, CRLF or NUL at the ends; optionally a large incompressible image (three size bands); optionally edits that cross counts (10-12, rarely 17/33/65 pictures or notes, up to 129 paragraphs) and a 63-130 KiB text with multi-byte characters. Targets: plain, nested new directories, existing longer file / shorter file / complete larger package, symbolic link to a file, dangling symbolic link, relative path in new directories, bare file name, path with .. and ., 255-byte name, non-ASCII name, white space at the ends of the path / of a relative path / of components (blank, tab, newline), no or another extension, the path the document was opened from; unusable targets (/dev/full, parent is a regular file, path is a directory, 256-byte name, empty path, directory below /proc) must give an error and the object is saved to an ordinary path afterwards. Save history: in about 3 of 4 cases the object was saved 1-4 (rarely 10-12) times before the final save (to the final path, the previous path, a fresh path, fresh directories, a relative path; one stage in four first hits a write fault at a drawn offset and is then repeated on the same path; one in ten goes to an unusable target and must fail), each save followed by 0-4 edits drawn mostly from the calls that create package parts plus body growth and shrinkage; in one case of four a second, independent Document object is saved and edited in some of the stages (alternately with the judged one, also to the same path) and once more between two final saves of the judged object; every save of every object is judged like the final one. A case is non-trivial when it has >2 fault points with 0<=N<L; distinct = (size band, target kind, source, op count, L/512, saves, objects).",
 		Gen:  genCase, Run: run, Findings: findings, CaseLimit: 300e9,
 		MustSee: map[string]float64{"history:multi-save": 0.3, "history:parts-added-between-saves": 0.15, "history:same-path-again": 0.15, "history:first-save": 0.1,
 			"source:opened": 0.15, "source:foreign-package": 0.05, "objects:two": 0.05, "history:objects-saved-alternately": 0.05, "enumeration:exhaustive": 0.1},
